@@ -72,6 +72,10 @@ func TestC09_Params(t *testing.T) {
 		subj := sliceSubject(t, n)
 		doc := jv.VObj([]jv.Member{{K: "a", V: subj}, {K: "s", V: jv.VStr("a,b,,aab,a")}, {K: "arr", V: jv.VArr([]jv.Val{jv.VInt(1), jv.VInt(2), jv.VInt(3)})}})
 		big := func(label string) ast.Expr { return ast.Lit(jv.VInt(gen.HostileInt(t, n))) }
+		strSubject := func() ast.Expr {
+			return gen.Pick(t, "strsubject", []ast.Expr{ast.F("s"), ast.F("s"), ast.RawS(""), ast.RawS("a"), ast.RawS("ééé")})
+		}
+		needle := func() ast.Expr { return ast.RawS(gen.Pick(t, "needle", []string{"a", "a", "", "zz", ",a", "a,b,,aab,a,"})) }
 		var e ast.Expr
 		kind := rapid.IntRange(0, 17).Draw(t, "kind")
 		var floatDoc *run.Node
@@ -90,16 +94,18 @@ func TestC09_Params(t *testing.T) {
 			e = ast.F("a").With(ast.Step{Kind: ast.SIndex, Index: gen.HostileInt(t, n)})
 			label = "index"
 		case 3:
-			e = ast.Call(gen.Pick(t, "find", []string{"find_first", "find_last"}), ast.A(ast.F("s")), ast.A(ast.RawS("a")), ast.A(big("start")))
+			e = ast.Call(gen.Pick(t, "find", []string{"find_first", "find_last"}), ast.A(strSubject()), ast.A(needle()), ast.A(big("start")))
 			label = "find-offset"
 		case 4:
-			e = ast.Call(gen.Pick(t, "find", []string{"find_first", "find_last"}), ast.A(ast.F("s")), ast.A(ast.RawS("a")), ast.A(big("start")), ast.A(big("end")))
+			e = ast.Call(gen.Pick(t, "find", []string{"find_first", "find_last"}), ast.A(strSubject()), ast.A(needle()), ast.A(big("start")), ast.A(big("end")))
 			label = "find-window"
 		case 5:
-			e = ast.Call("split", ast.A(ast.F("s")), ast.A(ast.RawS(gen.Pick(t, "sep", []string{",", "", "a"}))), ast.A(big("count")))
+			e = ast.Call("split", ast.A(strSubject()), ast.A(ast.RawS(gen.Pick(t, "sep", []string{",", "", "a", "zz", "a,b,,aab,a,"}))), ast.A(big("count")))
 			label = "split-count"
 		case 6:
-			e = ast.Call("replace", ast.A(ast.F("s")), ast.A(ast.RawS("a")), ast.A(ast.RawS("bb")), ast.A(big("count")))
+			// (every relation between the strings: an empty or absent search
+			// string, an empty replacement, an empty subject)
+			e = ast.Call("replace", ast.A(strSubject()), ast.A(ast.RawS(gen.Pick(t, "old", []string{"a", "a", "", ",", "aab", "zz", "a,b,,aab,a"}))), ast.A(ast.RawS(gen.Pick(t, "new", []string{"bb", "", "a", "-", "é"}))), ast.A(big("count")))
 			label = "replace-count"
 		case 7:
 			// pad: only widths the result size of which is small are in scope
